@@ -22,7 +22,7 @@ RULE = ('Case = a FastbootCommands entry point (getvar, oem, erase, flash, reboo
         'DATA/OKAY -> FastbootStateMismatchError, other header -> FastbootInvalidResponseError; image bytes only after DATA with '
         'exactly the announced size (else FastbootTransferError and zero image bytes), then exactly the image, in order, in '
         'chunks <= c, cumulative progress; a raising progress callback changes nothing.  Non-trivial = >=1 INFO before the final '
-        'packet, or a download; distinct by canonical case.')
+        'packet, or a download; distinct by canonical case.  FastbootDevice.get_boot_config(name) with free device texts: failures by class as for oem, the value of a \'name: value\' line if one was sent, else the OKAY payload; lines without a colon are no such line.')
 ASSUMPTIONS = ['Responses and images are str (Python-2 era code); DATA packets always carry 8 hex digits.',
                'The final OKAY/FAIL packet is also forwarded to the info callback by the code; only the INFO subsequence is compared.']
 EXHAUSTIVE_WHOLE = False
